@@ -185,6 +185,8 @@ func sizeof(v reflect.Value) int {
 		sum = int(v.Type().Size())
 	case reflect.Bool:
 		sum = int(v.Type().Size())
+	case reflect.Uint, reflect.Uintptr:
+		sum = int(v.Type().Size())
 	default:
 		panic(fmt.Sprintf("unknown kind: %s", v.Kind()))
 	}
